@@ -2198,6 +2198,27 @@ fn gen(a: &Args) {
         writeln!(w, "poll").unwrap();
         writeln!(w, "poll").unwrap();
     }
+    if matches!(prop, "C02" | "C04" | "C05") {
+        // an accept-error back-off (injected, and REAL through nofile) while one worker is full and another is not: when it
+        // is over the full worker is still full (seed13 C02-26 cleared all availability bits on the error and set them ALL
+        // again at the expiry)
+        for (i, err) in ["env inject:0:EMFILE", "nofile"].iter().enumerate() {
+            writeln!(w, "case backoff-with-a-full-worker-{i} workers=2 limit=1 listeners=tcp").unwrap();
+            writeln!(w, "connect 0").unwrap();
+            writeln!(w, "poll").unwrap();
+            if *err == "nofile" {
+                writeln!(w, "connect 0").unwrap();
+                writeln!(w, "poll nofile=1").unwrap();
+            } else {
+                writeln!(w, "{err}").unwrap();
+                writeln!(w, "connect 0").unwrap();
+                writeln!(w, "poll").unwrap();
+            }
+            for l in ["env advance:600", "poll", "poll", "connect 0", "poll", "poll", "connect 0", "poll", "env recv:0,recv:1", "poll"] {
+                writeln!(w, "{l}").unwrap();
+            }
+        }
+    }
     if matches!(prop, "C05" | "C03" | "C08" | "C06") {
         // interests pushed by another thread WHILE the loop drains its queue are all processed (seed13 C05-25 dropped
         // the queue's lock between the empty pop and the reset)
